@@ -225,21 +225,21 @@ def setup(concepts, spec):
     D, C = concepts.Definition, concepts.Context
     defs = concepts.definitions
     attach.attach_ctor(concepts)
-    attach.attach(defs.Triple, '__init__', c13.InitMonitor(D))
+    attach.attach(concepts.Definition, '__init__', c13.InitMonitor(D))
     for op in c13.MUTATORS:
-        attach.attach(defs.MutableMixin, op, LightMutator(op, D))
-    owners = {'copy': defs.Triple, 'union': defs.MutableMixin, 'intersection': defs.MutableMixin,
-              'take': defs.TransformableMixin, 'transposed': defs.TransformableMixin,
-              'inverted': defs.TransformableMixin}
+        attach.attach(concepts.Definition, op, LightMutator(op, D))
+    owners = {'copy': concepts.Definition, 'union': concepts.Definition, 'intersection': concepts.Definition,
+              'take': concepts.Definition, 'transposed': concepts.Definition,
+              'inverted': concepts.Definition}
     for op in DERIVED:
         hits = attach.attach(owners[op], op, DerivedMonitor(op, D))
         if op in ALIASES and not any(h.endswith(ALIASES[op]) for h in hits):
             COL.count(f'alias_{ALIASES[op]}_not_found')
     attach.attach(C, 'definition', DefinitionMonitor(D))
-    attach.attach(concepts.contexts.ComparableMixin, '__eq__', CtxCompare(False, C))
-    attach.attach(concepts.contexts.ComparableMixin, '__ne__', CtxCompare(True, C))
-    attach.attach(concepts.contexts.FormattingMixin, 'crc32', Crc32Monitor())
-    attach.attach(defs.FormattingMixin, 'crc32', Crc32Monitor())
+    attach.attach(concepts.Context, '__eq__', CtxCompare(False, C))
+    attach.attach(concepts.Context, '__ne__', CtxCompare(True, C))
+    attach.attach(concepts.Context, 'crc32', Crc32Monitor())
+    attach.attach(concepts.Definition, 'crc32', Crc32Monitor())
 
 
 # ---------------------------------------------------------------------------
